@@ -150,6 +150,9 @@ func builtinDateBeforeSetFrom(call FunctionCall, argumentLimit int, timeLocal, n
 
 	if date.isNaN {
 		if !nanAsZero {
+			// The result is NaN and is stored like any other result, over
+			// whatever a conversion above may have written meanwhile.
+			obj.value = invalidDateObject
 			return nil, nil, nil, nil
 		}
 		// 15.9.5.40-41 step 1: if this time value is NaN, let t be +0
